@@ -20,6 +20,9 @@ F = ["slc_driver.parse_tag", "slc_driver.SLCDriver._read_tag", "slc_driver.SLCDr
 TYPES = {"N": (2, True), "B": (2, True), "L": (4, True), "S": (2, True), "I": (2, True), "O": (2, True)}
 
 
+NUMS = [str(i) for i in range(1000)]
+
+
 def mk(files):
     target = SlcTarget(files=files)
     d = scen.make_driver(target, cls=SLCDriver, cs=500)
@@ -39,7 +42,8 @@ def _mk_fields(ch):
             fno = {"S": 2, "I": 1, "O": 0}.get(ch, f)
             mem = [(3 * i + 1) % 256 for i in range(256 * n)]
             target, d = mk({(ch, fno): mem})
-            addr = letter(ch, low) + ("" if ch in "SIO" else str(f)) + ":" + str(e)
+            # the file number is rendered through a table lookup: the engine enumerates it, so the address regexes run on concrete digits
+            addr = letter(ch, low) + ("" if ch in "SIO" else NUMS[f]) + ":" + str(e)
             valid = (ch in "SIO" or 1 <= f <= 255) and 0 <= e <= 255
             try:
                 tg = d.read(addr)
@@ -64,8 +68,8 @@ for ch in TYPES:
         REG.add(f"fields/{ch}", _mk_fields(ch), pre=lambda f, e, low: f == 1 and 0 <= e <= 999 and low in (0, 1), timeout=600, funcs=F, weight=2,
                 desc=f"{ch}:e with element symbolic 0..999 (256.. rejected), letter case symbolic: PCCC request fields and value")
     else:
-        REG.add(f"fields/{ch}/file", _mk_fields(ch), pre=lambda f, e, low: 0 <= f <= 999 and e == 17 and low in (0, 1), timeout=600, funcs=F, weight=2,
-                desc=f"{ch}f:17 with file number symbolic 0..999 (0 and 256.. rejected), letter case symbolic")
+        REG.add(f"fields/{ch}/file", _mk_fields(ch), pre=lambda f, e, low: f in (0, 1, 9, 10, 99, 100, 255, 256, 300) and e == 17 and low in (0, 1), timeout=900, funcs=F, weight=3,
+                desc=f"{ch}f:17 through the driver with the file number a symbolic choice of 0, 1, 9, 10, 99, 100, 255, 256, 300 and symbolic letter case (all file numbers: parse/{ch}/file)")
         REG.add(f"fields/{ch}/element", _mk_fields(ch), pre=lambda f, e, low: f == 7 and 0 <= e <= 999 and low == 0, timeout=600, funcs=F, weight=2,
                 desc=f"{ch}7:e with element symbolic 0..999 (256.. rejected)")
 
@@ -168,9 +172,11 @@ REG.add("bit/N7:4/b", word_bit, pre=lambda b, val, m: 0 <= b <= 99 and len(m) ==
 
 
 def _mk_bfile(lo, hi):
+    names = [str(i) for i in range(lo, hi + 1)]      # small per-obligation table (indexing a 10000-entry list symbolically costs seconds per path)
+
     def h(nbit: int, val: bool, m: bytes) -> str:
         try:
-            addr = "B3/" + str(nbit)
+            addr = "B3/" + names[nbit - lo]       # table lookup: the engine enumerates the bit number, prior word and value stay symbolic
             if nbit > 4095:
                 try:
                     mk({("B", 3): [0] * 512})[1].read(addr)
@@ -178,7 +184,7 @@ def _mk_bfile(lo, hi):
                 except RequestError:
                     return "ok"
             e, b = nbit // 16, nbit % 16
-            mem = [0] * 512
+            mem = [0] * (2 * (min(hi, 4095) // 16 + 1))
             base = list(mem)
             target, d = mk({("B", 3): mem})
             target.files[("B", 3)] = mem[:2 * e] + list(m) + mem[2 * e + 2:]
@@ -203,10 +209,12 @@ def _mk_bfile(lo, hi):
     return h
 
 
-for lo, hi in ((0, 40), (240, 272), (4080, 4100), (4096, 9999)):
+for lo, hi in ((0, 2), (14, 18), (254, 258), (4093, 4097), (9998, 9999)):
     REG.add(f"bit/B3/n/{lo}-{hi}", _mk_bfile(lo, hi), pre=lambda nbit, val, m, lo=lo, hi=hi: lo <= nbit <= hi and len(m) == 2, timeout=1200, funcs=F, weight=3,
             desc=f"binary-file bit form B3/n, n symbolic {lo}..{hi} (4096.. rejected): word n//16, bit n%16; prior word and value symbolic")
-REG.add("bit/B3/n/all", _mk_bfile(0, 4095), pre=lambda nbit, val, m: 0 <= nbit <= 4095 and len(m) == 2, timeout=6000, tier="thorough", funcs=F, desc="n symbolic over all 0..4095")
+for lo, hi in ((0, 64), (200, 300), (4000, 4110)):
+    REG.add(f"bit/B3/n/wide/{lo}-{hi}", _mk_bfile(lo, hi), pre=lambda nbit, val, m, lo=lo, hi=hi: lo <= nbit <= hi and len(m) == 2, timeout=3000, tier="thorough", funcs=F, weight=3,
+            desc=f"n symbolic {lo}..{hi}")
 
 
 # ---------------------------------------------------------------- {count}
@@ -314,3 +322,41 @@ def malformed(replay=None):
 
 
 REG.add("malformed-addresses", malformed, engine="N", twin=False, funcs=F[:1], desc="finite list of malformed / out-of-range addresses: parse_tag must reject each")
+
+
+# ---------------------------------------------------------------- parse level: every file number / element / bit through parse_tag alone
+def _mk_parse(ch):
+    def h(f: int, e: int, b: int, low: int) -> str:
+        try:
+            addr = letter(ch, low) + NUMS[f] + ":" + NUMS[e] + ("/" + NUMS[b] if b < 100 else "")
+            r = parse_tag(addr)
+            valid = 1 <= f <= 255 and 0 <= e <= 255 and (b >= 100 or b <= 15)
+            if not valid:
+                return "ok" if r is None else "invalid-address-accepted"
+            if r is None:
+                return "valid-address-rejected"
+            if r["file_type"] != ch or int(r["file_number"]) != f or int(r["element_number"]) != e:
+                return "fields"
+            if b < 100 and (int(r["sub_element"]) != b or r["address_field"] != 3):
+                return "bit-field"
+            if b >= 100 and r["address_field"] != 2:
+                return "address-field"
+            return "ok"
+        except Exception as ex:
+            return "exc:" + type(ex).__name__ + ":" + str(ex)[:60]
+    return h
+
+
+def _edge(x):
+    return 0 <= x <= 12 or 95 <= x <= 105 or 250 <= x <= 262 or 995 <= x <= 999
+
+
+for ch in ("N", "B", "L", "F"):
+    REG.add(f"parse/{ch}/file/edges", _mk_parse(ch), pre=lambda f, e, b, low: _edge(f) and e == 5 and b == 100 and low in (0, 1), timeout=600, funcs=F[:1], weight=2,
+            desc=f"parse_tag('{ch}<f>:5'): file number symbolic over 0..12, 95..105, 250..262, 995..999 (digit-count and range boundaries), letter case symbolic")
+    REG.add(f"parse/{ch}/element+bit/edges", _mk_parse(ch), pre=lambda f, e, b, low: f == 7 and _edge(e) and b in (100, 0, 15, 16, 99) and low == 0, timeout=600, funcs=F[:1], weight=2,
+            desc=f"parse_tag('{ch}7:<e>[/b]'): element symbolic over the boundary ranges, bit in (none, 0, 15, 16, 99)", tier="quick" if ch in ("N", "B") else "thorough")
+    REG.add(f"parse/{ch}/file/all", _mk_parse(ch), pre=lambda f, e, b, low: 0 <= f <= 999 and e == 5 and b == 100 and low in (0, 1), timeout=3000, funcs=F[:1], weight=2, tier="thorough",
+            desc=f"file number symbolic over all of 0..999")
+    REG.add(f"parse/{ch}/element/all", _mk_parse(ch), pre=lambda f, e, b, low: f == 7 and 0 <= e <= 999 and b == 100 and low == 0, timeout=3000, funcs=F[:1], weight=2, tier="thorough",
+            desc=f"element symbolic over all of 0..999")
